@@ -2,9 +2,10 @@
 History over LevelDB) interleaved with real server runs (BlockProcessor indexing and undoing
 blocks), following a plan exported by TLC from Compaction.tla.
 '''
+from harness.detloop import NoProgress
 from harness.crashio import CTL
 from harness.indexlab import IndexRun, StopRun
-from harness.chainlab import SLOTS
+from harness.chainlab import SLOTS, SCRIPTS
 
 
 class CompactRun(IndexRun):
@@ -15,6 +16,9 @@ class CompactRun(IndexRun):
         self.tool_db = None
         self.mined = set()
         self.overflow = False
+        # the three scripts whose histories grow sit in the first prefix, in the one right after it (so that a batch
+        # ends exactly before a populated prefix) and in the very last prefix
+        self.hashx_prefix = {bytes(SCRIPTS[4]): b'\x00\x00', bytes(SCRIPTS[2]): b'\x00\x01', bytes(SCRIPTS[3]): b'\xff\xff'}
 
     # ---- helpers
     def next_slots(self):
@@ -61,8 +65,8 @@ class CompactRun(IndexRun):
                 g.release()
                 continue
             if not self.loop.advance():
-                raise RuntimeError('pump: deadlock')
-        raise RuntimeError('pump: did not settle')
+                raise NoProgress('pump: deadlock')
+        raise NoProgress('pump: did not settle')
 
     def stop_server(self):
         self.shutdown_event.set()
@@ -166,8 +170,8 @@ class CompactRun(IndexRun):
                 if self.tool_db is not None:
                     self.close_tool()
                 if not running:
-                    # blocks the plan flushes right after the start are mined first, so that they are
-                    # indexed (and flushed) while the server is still syncing, before it opens for serving
+                    # blocks the plan flushes before the server is caught up ('serve') are mined first, so that they
+                    # are indexed (and flushed) while the server is still syncing, before it re-opens for serving
                     j = k + 1
                     while j < len(plan) and plan[j]['e'] == 'flush':
                         self.mine_for(plan[j])
@@ -175,12 +179,14 @@ class CompactRun(IndexRun):
                         j += 1
                     self.boot()
                     self.last_sig = None
-                    if premined == 0:
-                        self.pump(self.settled)
-                    else:
+                    if premined > 0:
                         self.pump(lambda: True, release_first=False)       # to the first poll
-                    self.record('reopen', force=True)
+                        self.record('reopen', force=True)
                     running = True
+            elif kind == 'serve':
+                if running:
+                    self.pump(self.settled)      # first catch-up: open_for_serving
+                    self.record('reopen', force=True)
             elif kind == 'tool':
                 if running or self.tool_db is not None:
                     continue
